@@ -234,6 +234,9 @@ type deferGuard struct {
 	flag  *ssa.Alloc // nil = unconditional
 	ok    bool
 	why   string
+	// nilFlag: the condition is `cell == nil` on a captured pointer/interface cell ("nothing stored yet"), instead of a
+	// boolean flag being true
+	nilFlag bool
 }
 
 // deferredRollback classifies a Defer instruction: does it guarantee Rollback of this tx at function exit
@@ -304,7 +307,51 @@ func (s *txScope) deferredRollback(d *ssa.Defer) *deferGuard {
 		}
 		return &deferGuard{instr: d, flag: al, ok: true}
 	}
-	return &deferGuard{instr: d, why: "deferred closure rolls back only on some paths and the condition is not a captured boolean flag"}
+	// conditional on a captured pointer / interface cell being nil ("the value only exists after a successful commit")
+	for _, fv := range cl.FreeVars {
+		pt, isPtr := fv.Type().Underlying().(*types.Pointer)
+		if !isPtr {
+			continue
+		}
+		switch pt.Elem().Underlying().(type) {
+		case *types.Pointer, *types.Interface:
+		default:
+			continue
+		}
+		nonNil := core.IfEdgesWhere(cl, func(v ssa.Value) bool {
+			x, trueMeansNil, ok := core.NilCheck(v)
+			if !ok {
+				return false
+			}
+			u, isLoad := x.(*ssa.UnOp)
+			return isLoad && u.Op == token.MUL && u.X == ssa.Value(fv) && trueMeansNil
+		}, false)
+		nonNil = append(nonNil, core.IfEdgesWhere(cl, func(v ssa.Value) bool {
+			x, trueMeansNil, ok := core.NilCheck(v)
+			if !ok {
+				return false
+			}
+			u, isLoad := x.(*ssa.UnOp)
+			return isLoad && u.Op == token.MUL && u.X == ssa.Value(fv) && !trueMeansNil
+		}, true)...)
+		if len(nonNil) == 0 {
+			continue
+		}
+		if leak := (&core.Walk{Target: core.IsExit, Stop: isRb, EdgeOK: core.Forbid(nonNil)}).From(core.Entry(cl), nil); leak != nil {
+			continue
+		}
+		for _, r := range *fv.Referrers() {
+			if st, ok := r.(*ssa.Store); ok && st.Addr == ssa.Value(fv) {
+				return &deferGuard{instr: d, why: "deferred closure writes the cell its rollback depends on"}
+			}
+		}
+		al, _ := bindingOf(fv).(*ssa.Alloc)
+		if al == nil {
+			return &deferGuard{instr: d, why: "the cell the rollback depends on is not a local variable"}
+		}
+		return &deferGuard{instr: d, flag: al, nilFlag: true, ok: true}
+	}
+	return &deferGuard{instr: d, why: "deferred closure rolls back only on some paths and the condition is neither a captured boolean flag nor a captured nil-able cell"}
 }
 
 func (s *txScope) closesRollback(ins ssa.Instruction) bool {
@@ -443,6 +490,36 @@ func ruleTxPair(c *core.Ctx, rule string, fn *ssa.Function) int {
 		flagOK := true
 		for _, g := range guards {
 			if g.flag == nil {
+				continue
+			}
+			if g.nilFlag {
+				// the cell is nil when the defer is registered and receives a non-nil value only after a nil Commit
+				for _, ref := range *g.flag.Referrers() {
+					st, ok := ref.(*ssa.Store)
+					if !ok || st.Addr != ssa.Value(g.flag) {
+						continue
+					}
+					for _, lf := range phiLeaves(st.Val) {
+						if isNilConst(lf.val) {
+							continue
+						}
+						var f *core.Found
+						if lf.phi == nil {
+							f = (&core.Walk{EdgeOK: core.Forbid(commitNil), Target: func(i ssa.Instruction) bool { return i == ssa.Instruction(st) }}).From(core.Entry(fn), nil)
+						} else {
+							pred, to := lf.phi.Block().Preds[lf.idx], lf.phi.Block()
+							f = (&core.Walk{EdgeOK: core.Forbid(commitNil), TargetEdge: func(from *ssa.BasicBlock, si int) bool { return from == pred && from.Succs[si] == to }}).From(core.Entry(fn), nil)
+						}
+						if f != nil || len(commitNil) == 0 {
+							c.Violate(rule, construct, st.Pos(), "the cell that disarms the deferred rollback receives a non-nil value on a path where Commit did not return nil")
+							flagOK = false
+						}
+					}
+					if core.Dominates(st, g.instr) && !isNilConst(st.Val) {
+						c.Violate(rule, construct, st.Pos(), "the cell that disarms the deferred rollback is already set when the rollback is registered")
+						flagOK = false
+					}
+				}
 				continue
 			}
 			// the flag must be true when the defer is registered and false only after a nil Commit
